@@ -264,6 +264,17 @@ func (t *Transport) getConn(addr string) (pc *persistConn, err error) {
 	if cq, ok := t.idleConns[addr]; ok && cq.Length() > 0 {
 		pc = cq.Dequeue()
 		pc.lastTime = time.Now()
+		// Housekeeping parks connections in the idle queue regardless of
+		// liveness, so a dequeued connection has to be checked here as well.
+		pc.mu.Lock()
+		if !pc.alive {
+			pc.mu.Unlock()
+			if pc, err = t.newPersistConn(addr); err != nil {
+				return nil, err
+			}
+		} else {
+			pc.mu.Unlock()
+		}
 	} else {
 		if pc, err = t.newPersistConn(addr); err != nil {
 			return nil, err
